@@ -271,6 +271,16 @@ def run(ctx):
                 res.violation("Y-2PHASE", xv.fi.short, norm(stores[0])[:110], "draw-then-update", f"`{sorted(tabs)[0]}` is updated inside the loop that draws the nodes of the hyperedge from it: a node moved down one degree class can be drawn again for the same hyperedge (the hyperedge comes out one node short and the node loses two units of degree)", loc(xv.fi, stores[0]))
             else:
                 res.ok("Y-2PHASE", xv.fi.short, norm(draws[0])[:110], "draw-then-update", loc(xv.fi, draws[0]))
+        # the same on the CFG: no draw from the table is reachable from an update of the table (a top-up pool read after the
+        # degrees were lowered contains the nodes just drawn for this very hyperedge)
+        all_draws = [c for c in walk_no_nested(xv.fi.node) if isinstance(c, ast.Call) and isinstance(c.func, ast.Attribute) and c.func.attr in ("choice", "sample", "permutation", "shuffle") and any(isinstance(x, ast.Attribute) and x.attr.endswith("rng") for x in ast.walk(c.func))]
+        for c in all_draws:
+            for t in {x.value.id for x in ast.walk(c) if isinstance(x, ast.Subscript) and isinstance(x.value, ast.Name) and x.value.id in xp and x.value.id != "self"}:
+                ups = [n for n in walk_no_nested(xv.fi.node) if isinstance(n, (ast.Assign, ast.AugAssign)) and any(isinstance(tg, ast.Subscript) and isinstance(tg.value, ast.Name) and tg.value.id == t for tg in (n.targets if isinstance(n, ast.Assign) else [n.target]))]
+                cid = xv.cfg_id(c)
+                late = [u for u in ups if cid is not None and xv.cfg_id(u) is not None and xv.cfg_id(u) != cid and xv.cfg.reaches_without(xv.cfg_id(u), cid, set())]
+                if late and not any(u for lp in walk_no_nested(xv.fi.node) if isinstance(lp, (ast.For, ast.While)) for u in late if any(u is y for y in ast.walk(lp)) and any(c is y for y in ast.walk(lp))):
+                    res.violation("Y-2PHASE", xv.fi.short, norm(c)[:110], "update-then-draw", f"nodes are drawn from `{t}` after `{norm(late[0])[:60]}` has updated it for the nodes already chosen for this hyperedge: the pool now contains those very nodes (a node demoted to the class can be drawn again; the hyperedge collapses below the requested size)", loc(xv.fi, c))
         if n_loops == 0:
             res.unknown("Y-2PHASE", xv.fi.short, "while n_nodes_sampled < hye_size: ... rng.choice(list(nodes_with_deg[deg]), ...)", "draw-then-update", "the drawing loop was not recognised", loc(xv.fi, xv.fi.node))
     with res.guard("Y-WEIGHTED"):
